@@ -180,7 +180,8 @@ func respUnauthorizedNegotiate(resp *http.Response) bool {
 }
 
 func setRequestSPN(r *http.Request) (types.PrincipalName, error) {
-	h := strings.TrimSuffix(r.URL.Host, ".")
+	// The host part of a host-based principal name is lower case (RFC 4120 6.2.1); the host of a URL is case-insensitive.
+	h := strings.ToLower(strings.TrimSuffix(r.URL.Host, "."))
 	// This if statement checks if the host includes a port number
 	if strings.LastIndex(r.URL.Host, ":") > strings.LastIndex(r.URL.Host, "]") {
 		// There is a port number in the URL
